@@ -252,6 +252,9 @@ func (dl *datalog) close() error {
 		if seg == nil {
 			continue
 		}
+		if err := seg.Sync(); err != nil {
+			return err
+		}
 		if err := seg.Close(); err != nil {
 			return err
 		}
